@@ -5,6 +5,7 @@ CONSTANTS
   NEvents = 3
   M_Recharge = TRUE
   M_SignalOnPut = TRUE
-INVARIANTS NoCodePanic OneOwner ChargedRight TakenInOrder
+  M_UnblockOnlyIfEmpty = TRUE
+INVARIANTS NoEventLost NoCodePanic OneOwner ChargedRight TakenInOrder
 PROPERTIES AllTaken
 CHECK_DEADLOCK FALSE
